@@ -49,6 +49,7 @@ class StringConcatViolation:
     line_number: int
     column: int
     loop_type: str  # 'for' or 'while'
+    scope_line: int = 0  # line of the enclosing function (0 = module level): names are per scope
 
 
 # thailint: ignore-next-line[srp.violation] Uses small focused methods to reduce complexity
@@ -203,8 +204,11 @@ class PythonStringConcatAnalyzer:
         saved = (self._string_variables, self._non_string_variables)
         self._string_variables, self._non_string_variables = set(), set()
         self._identify_string_variables(node)
+        first_own = len(violations)
         for child in ast.iter_child_nodes(node):
             self._find_concat_in_loops(child, violations, in_loop, reset_vars)
+        for violation in violations[first_own:]:
+            violation.scope_line = violation.scope_line or getattr(node, "lineno", 0)
         self._string_variables, self._non_string_variables = saved
 
     def _get_loop_type(self, node: ast.AST) -> str | None:
@@ -389,13 +393,13 @@ class PythonStringConcatAnalyzer:
         Returns:
             Deduplicated list with one violation per variable per loop
         """
-        # Group by variable name and keep first occurrence
-        seen: set[str] = set()
+        # Group by variable (a name belongs to its function) and keep first occurrence
+        seen: set[tuple[str, int]] = set()
         result: list[StringConcatViolation] = []
 
         for v in violations:
-            if v.variable_name not in seen:
-                seen.add(v.variable_name)
+            if (v.variable_name, v.scope_line) not in seen:
+                seen.add((v.variable_name, v.scope_line))
                 result.append(v)
 
         return result
